@@ -317,7 +317,7 @@ func runSeq(c SeqCase, st *kit.Stats, h seqHooks, flags map[string]int) error {
 		}
 		// the add/remove cycles of the scripted sparse-table scenarios only exist to move the table's
 		// removal counter: their replies are compared, the full dump is taken after the scenario's real steps
-		churn := len(argv) > 1 && argv[1] == "churn" && i != len(c.Steps)-1
+		churn := len(argv) > 1 && (argv[1] == "churn" || (len(argv) == 3 && argv[2] == "churn") || (len(argv) == 4 && argv[2] == "churn" && argv[0] == "HSET")) && i != len(c.Steps)-1
 		if churn {
 			continue
 		}
@@ -347,6 +347,23 @@ func runSeq(c SeqCase, st *kit.Stats, h seqHooks, flags map[string]int) error {
 func goneStep(t *rapid.T, k string) kit.Argv {
 	return kit.A(pick(t, "gone", []string{"DEL", k}, []string{"DEL", k}, []string{"UNLINK", k}, []string{"PEXPIREAT", k, "1000"}, []string{"EXPIRE", k, "-1"},
 		[]string{"PEXPIRE", k, "0"}, []string{"EXPIREAT", k, "1"})...)
+}
+
+// churnCount: how many add/remove cycles of an unrelated element precede the next step. The table of a
+// collection counts removals and tries to halve itself when they exceed half its width (16, 32, 64, 128 ...),
+// so the interesting counts are the ones around those thresholds, and several phases in a row.
+func churnCount(t *rapid.T) int {
+	switch weighted(t, "churnkind", []int{3, 3, 3, 2, 1}) {
+	case 0:
+		return rapid.IntRange(0, 8).Draw(t, "churn")
+	case 1:
+		return rapid.IntRange(9, 20).Draw(t, "churn")
+	case 2:
+		return rapid.IntRange(30, 36).Draw(t, "churn")
+	case 3:
+		return rapid.IntRange(62, 68).Draw(t, "churn")
+	}
+	return 130
 }
 
 // afterGone draws one step with mk and puts in front of it steps that make the key(s) it names gone
